@@ -463,7 +463,7 @@ def main():
                         # selected obligations need; obligations of a dropped module stay undecided (lost anchor).
                         if not getattr(run_group, "rewoven", False):
                             text = open(logf).read()
-                            bad_files = set(re.findall(r"--> \S*?/verif/(harness/\S+?\.rs):", text))
+                            bad_files = set(re.findall(r"^error[^\n]*\n\s*--> \S*?/verif/(harness/\S+?\.rs):", text, flags=re.M))
                             drop = set(h["mod"] for h in registry.HOSTS if h["src"] in bad_files and not h.get("support"))
                             mods = set()
                             for o in obs:
